@@ -38,6 +38,12 @@ def plan(tier, seed):
 def gen_history(rng, model):
     L = int(rng.integers(2, 11))
     ops = []
+    if rng.random() < 0.15:
+        # tool change, then base moves, then kinematics: the order in which frame bookkeeping errors accumulate
+        ops.append({"op": "setArbitraryHome", "rel": np.concatenate([rng.uniform(-0.5, 0.5, 3), gen.rotvec(rng, ["generic2", "generic"])]).tolist(), "theta": None})
+        ops.append({"op": "move", "base": armlib.random_base(rng, 0.0), "stationary": False})
+        ops.append({"op": "move", "base": armlib.random_base(rng, 0.0), "stationary": False})
+        L = max(1, L - 3)
     for _ in range(L):
         k = gen.pick(rng, ["FK", "FK", "FK", "IK", "IK", "move", "move", "move_stationary", "setHome", "setHome", "restore", "randomPos"])
         if k == "FK":
